@@ -117,6 +117,11 @@ def exec_for(ex, s, st):
     if getattr(it, "parallel", False):
         ex.ctx.notes.append(f"prange loop at {ex.where(s)} executed as sequential loop (ownership obligations separately)")
     concrete = all(isinstance(x, int) for x in (lo, hi))
+    if spec is None and ex.ctx.options.get("auto_cut"):
+        # index-abstraction contracts: loops without a sidecar invariant are cut with the empty invariant
+        # (only the loop range is known in the body); short literal loops are still unrolled
+        if not concrete or len(range(lo, hi, step)) > ex.ctx.options.get("unroll_limit", 4):
+            spec = {"invariant": {}}
     if spec is None or spec.get("unroll"):
         if not concrete:
             raise BindingFailure(f"{ex.fname}: loop #{ordn} at {ex.where(s)} has a symbolic trip count and no invariant in the sidecar")
